@@ -420,4 +420,8 @@ def extra_phase(tier, base_seed):
             if fn.endswith(".sav") or fn.endswith(".omn"):
                 os.unlink(os.path.join(code, fn))
         shutil.rmtree(os.path.join(code, "Rules"), ignore_errors=True)
+    from .. import bigworld
+    big = bigworld.limit_phase(tier, base_seed)
+    out["violations"].extend(big.pop("violations", []))
+    out.update(big)
     return out
